@@ -5,6 +5,10 @@ HERE = os.path.dirname(os.path.dirname(os.path.abspath(__file__)))
 ALL = ["C%02d" % i for i in range(1, 21)]
 # id -> (technique, level text, level note, design ref)
 CHECKS = {
+ "C18": ("stateless model checking of the real client and server under a controlled transport scheduler (testing/synctest quiescence + gate transport): deviation-bounded DFS over all completion orders, partial transfers and capacities; structural deadlock detection; separate free-running race-detector pass",
+         "arrangements {lib-pull, lib-push, daemon-pull, daemon-push} x capacities {0,1,7,65536,inf}^2 (quick: {0,7,65536,inf}^2 + (1,1)) x trees {tiny, many-tiny, huge-literal, huge-sum-list, failing-receiver} with <=1 (thorough <=2) deviations; two sessions on one Server (pull||pull, pull||upload, upload||upload distinct/identical target) interleaved at operation granularity; local copy inside a bubble; 2..8 (thorough ..32) concurrent sessions under -race with GOMAXPROCS 1..16. Every execution must finish (no enabled operation while unfinished = deadlock) with the deviation-free / solo outcome",
+         "scheduling points are transport operations (file-system syscalls are not interleaved); the local arrangement's internal io.Pipe is outside the scheduler's control (its failing-receiver behaviour is covered through lib-push at capacity 0); data races are only visible to the free-running part",
+         "DESIGN.md §5 C18"),
  "C14": ("exhaustive enumeration of option subsets, each executed in all 5 arrangements on an every-type tree; differential comparison of the 5 resulting destinations (no hand-written expectation) plus absence of protocol errors",
          "all 512 subsets of {-l,-p,-t,-g,-o,-D,-c,-I,-n} with -r, combined with {--devices,--specials,--no-D,--delete,--exclude=x} (quick: singles/pairs on every 8th subset; thorough: all 16 384), 5 real sessions each against a destination with stale, quick-check-equal, extraneous and exclude-protected entries: no session may fail and all 5 destinations must agree on entry set, types, bytes, link targets, rdev, perms (-p), regular mtime (-t), owner/group (-o/-g)",
          "differential oracle: a deviation shared by all arrangements is invisible here (C01/C09/C10/C11/C13 judge absolute outcomes)",
